@@ -9,15 +9,18 @@ from checks import generative_driver as gd
 q = tlc.q
 LEVEL = "model_checking"
 MANIFEST = dict(
-    text="Generative.tla models a derivation tree of statements: Derive(parent, method) over the generative methods of Select / ORM select / "
-         "Query / Insert / Update / Delete, Copy(node, clone|copy|deepclone|pickle) and the first Compile(node, dialect), on a mechanism layer "
+    text="Generative.tla models a derivation tree of statements: Derive(parent, method) over the generative methods of Select / CompoundSelect / ORM "
+         "select / Query / Insert / Update / Delete, Copy(node, clone|copy|deepclone|pickle) and the first Compile(node, dialect), on a mechanism layer "
          "shaped like Generative._generate (shallow __dict__ copy sharing collection cells, memoized keys dropped, methods rebind a new "
          "collection). TLC checks that no action changes the value of an existing node, that every node's value and everything a compilation "
          "reads equal the meaning of its derivation, that copies equal their source, and that compilation writes memos only; the three "
          "classic faults (in-place append, _generate returning self, memos copied to the child) must be rejected. Every edge of the graphs "
          "(<=4 nodes quick, <=5 thorough, 3-4 methods per run drawn from ~14 per kind) is replayed on real statements; after every step every "
          "compiled node is recompiled on sqlite, postgresql, mysql, mssql and oracle and compared with its first recording and with the same "
-         "derivation built afresh; the first compilation is bracketed by an attribute-level snapshot of the statement.",
+         "derivation built afresh; the first compilation is bracketed by an attribute-level snapshot of the statement. Pre-step runs (root built "
+         "with methods already applied, Memo(n) = reading exported_columns / dialect_options / cache key without compiling, deep clones through "
+         "cloned_traverse and a ClauseAdapter) make 'memoise or clone the parent, then derive' histories reachable for select, compound select, "
+         "insert (single / multi VALUES, RETURNING), update and delete (with_dialect_options); the observable includes the exported column keys.",
     design_ref="3.13, 4 (C03)",
     note="trusted: TLC; the fixed argument lists of the generative calls in checks/generative_driver.py; SQL string + compiled.params as the "
          "observable; methods are sampled per run (all are covered in the thorough tier); Query objects are copied but not pickled",
@@ -177,7 +180,6 @@ def main(chk):
         steps, mism = graph.replay(g, walks + extra, lambda wid, wd, kind=kind: gd.Driver(wid, wd, kind, DIALECTS), chk.work + "/replay",
                                    nproc=16)
         for m in mism:
-            a = m["act"] if isinstance(m["act"], dict) else {"a": m["act"]}
             chk.violation(signature(kind, m), "real %s statement diverges from Generative.tla: %s" % (kind, m["mismatch"]), m)
         nwalks += len(walks) + len(extra)
         steps_total += steps
